@@ -433,6 +433,21 @@ impl Prop for C05 {
                 }
             }
         }
+        // tiny data regions of every length 0..=7 (the aligned string readers step past the end of an unaligned region)
+        for len in 0..=7usize {
+            for fill in [vec![0u8], vec![0x41, 0], vec![0x41], vec![0, 0x41]] {
+                for be in [false, true] {
+                    let data: Vec<u8> = (0..len).map(|i| fill[i % fill.len()]).collect();
+                    let mut labels = std::collections::BTreeMap::new();
+                    if len >= 4 {
+                        labels.insert(4u32, vec!["K".to_string()]);
+                    }
+                    if !emit(Case { source: Source::Archive(ArchiveContent { big_endian: be, data, cells: Default::default(), labels }), mutations: vec![] }) {
+                        return;
+                    }
+                }
+            }
+        }
         // inputs of length 0..=8 over a few bytes, at every entry point
         for len in 0..=8usize {
             for fill in [0x00u8, 0xFF, 0x70] {
